@@ -56,6 +56,10 @@ def admitted_rules():
                 name = "P_%d_%d_%d" % (m, dow, dom)
                 rules_map[name] = [{"onDay": on_string(dow, dom), "inMonth": m}]
                 keys[name] = (m, dow, dom)
+                # the same expression as the FIRST rule of a policy whose last rule is harmless (a plain day in June)
+                name2 = "Q_%d_%d_%d" % (m, dow, dom)
+                rules_map[name2] = [{"onDay": on_string(dow, dom), "inMonth": m}, {"onDay": "15", "inMonth": 6}]
+                keys[name2] = (m, dow, dom)
     tr = T.Transformer({}, {}, {}, "extended", 2000, 2050, 60, 900, True)
     logging.disable(logging.CRITICAL)
     try:
@@ -65,6 +69,13 @@ def admitted_rules():
         logging.disable(logging.NOTSET)
     adm = set()
     parsed_ok = True
+    alone = set(keys[n_] for n_ in res if n_.startswith("P_"))
+    first_of_two = set(keys[n_] for n_ in res if n_.startswith("Q_"))
+    if alone != first_of_two:
+        # admission of an expression must not depend on the other rules of its policy; report through parsed_ok
+        d_ = sorted(alone ^ first_of_two)[0]
+        parsed_ok = ("admission of %r depends on the position of the rule in its policy" % on_string(d_[1], d_[2]) + " (month %d)" % d_[0],
+                     {"alone": d_ in alone, "first_of_two": d_ in first_of_two})
     for name, rules in res.items():
         k = keys[name]
         adm.add(k)
@@ -80,8 +91,19 @@ def year_job(a):
     res = {"n": 0, "admitted": 0, "spill_month": 0, "bad": [], "crash": None}
     if rc != 0:
         res["crash"] = "days %d..%d rc=%s %s" % (y0, y1, rc, (err or "")[-300:])
+    first = {}
     for line in (out or "").splitlines():
+        if line.startswith("R "):
+            # second traversal, other order: must repeat the first answer
+            y, m, dow, dom, cm, cd = [int(x) for x in line.split()[1:]]
+            res["n"] += 1
+            if first.get((y, m, dow, dom)) != (cm, cd) and len(res["bad"]) < 8:
+                res["bad"].append(("order-dependent:%d" % m, [y, m, dow, dom],
+                                   "'%s' month %d year %d resolved to %r in the ascending traversal and to (%d,%d) when asked after other cases "
+                                   "(weekday innermost, descending)" % (on_string(dow, dom), m, y, first.get((y, m, dow, dom)), cm, cd)))
+            continue
         y, m, dow, dom, cm, cd = [int(x) for x in line.split()]
+        first[(y, m, dow, dom)] = (cm, cd)
         res["n"] += 1
         oy, om, od = oracle(y, m, dow, dom)
         if (m, dow, dom) not in adm:
